@@ -175,3 +175,18 @@ def isindex_witness():
     import html5lib
     doc = html5lib.parse("<isindex>", namespaceHTMLElements=False)
     return doc.find(".//isindex") is None and doc.find(".//form") is not None
+
+
+BREAKOUT = frozenset(["b", "big", "blockquote", "body", "br", "center", "code", "dd", "div", "dl", "dt", "em", "embed", "h1", "h2", "h3",
+                      "h4", "h5", "h6", "head", "hr", "i", "img", "li", "listing", "menu", "meta", "nobr", "ol", "p", "pre", "ruby", "s",
+                      "small", "span", "strong", "strike", "sub", "sup", "table", "tt", "u", "ul", "var"])
+
+
+@ground("C01")
+def foreign_content_breakout_elements():
+    """the start tags that leave foreign content (13.2.6.5, "b", "big", ..., "var"; font only with color/face/size)"""
+    from html5lib.html5parser import _phases
+    got = frozenset(_phases["inForeignContent"].breakoutElements)
+    return rec("C01/tables/foreign-content-breakout-elements", got == BREAKOUT, len(BREAKOUT),
+               "InForeignContentPhase.breakoutElements equals the standard's list of start tags that pop back to HTML content",
+               witness=None if got == BREAKOUT else [sorted(got - BREAKOUT), sorted(BREAKOUT - got)])
